@@ -398,9 +398,16 @@ def _replay_schema(case: dict) -> List[str]:
 
 PROPS["C10"] = {"theorems": ["C10_outcome", "C10_json_only_partial", "C10_wellformed_partial", "D26_witness", "C10_ref",
                              "C10_nonrecurrent", "C10_lazy_unnamed", "predSchema_outcome", "jsonOnlyO_jaddPred",
-                             "wfO_jaddPred", "predSchema_wf"],
-                "modules": ["KodaModel.Properties.C10", "KodaModel.Properties.C10WF"],
-                "level_note": "proved for the model `toSchema`: object-or-TypeError for every tree (given CPython's printers are "
+                             "wfO_jaddPred", "predSchema_wf", "src_pred_schema", "src_pred_schema_arms_known",
+                             "src_schema_pins"],
+                "modules": ["KodaModel.Properties.C10", "KodaModel.Properties.C10WF", "KodaModel.Properties.C10Src"],
+                "level_note": "tied to the source for the predicate keywords: generate_schema_predicate is translated on every "
+                              "run (Generated/SchemaPredSrc.lean: class tested, keyword(s), parameter, value form) and "
+                              "src_pred_schema proves its interpretation (KodaModel/PySchemaPred.lean) equal to the model's "
+                              "predSchema for every predicate and printer, so predSchema_outcome / predSchema_wf speak about the "
+                              "arms as written today; _enum_value, unhandled_type, _add_predicate_schema pinned "
+                              "(src_schema_pins); generate_schema_validator and the named-schema bookkeeping are hand-modelled "
+                              "(correspondence).  Proved for the model `toSchema`: object-or-TypeError for every tree (given CPython's printers are "
                               "total), JSON types only for trees with admitted finite parameters (D11 is the excluded case), "
                               "well-formedness (C10_wellformed_partial: every emitted keyword carries a value of the shape the "
                               "Draft 2020-12 metaschema demands, for trees with non-negative length / count parameters - D26 "
@@ -436,10 +443,11 @@ PROPS["C11"] = {"theorems": ["C11_scalar", "C11_scalar_schema", "C11_scalar_vali
                              "predCheck_PredOK", "predCheck_noRaise", "SchemasDecide.count", "C11_record_schema",
                              "node_record_validator", "node_ntuple_validator", "fields_formula", "foldl_jset_nodup",
                              "C11_map_schema", "node_map_validator", "node_equals_validator", "equals_schema_eq",
-                             "node_utuple_validator", "PredOK_minKeys", "PredOK_maxKeys", "jaddPred_noclash"],
+                             "node_utuple_validator", "PredOK_minKeys", "PredOK_maxKeys", "jaddPred_noclash", "src_pred_schema"],
                 "modules": ["KodaModel.Properties.C11", "KodaModel.Properties.C11Pat", "KodaModel.Properties.C11Containers",
-                            "KodaModel.Properties.C11Record", "KodaModel.Properties.C11Glue"],
-                "level_note": "proved: `C11_iff_partial` — for every tree (any depth, any width) built from string / integer / float / "
+                            "KodaModel.Properties.C11Record", "KodaModel.Properties.C11Glue", "KodaModel.Properties.C10Src"],
+                "level_note": "the predicate keywords are tied to the source (src_pred_schema: the translated "
+                              "generate_schema_predicate is the model's predSchema, which the PredOK_* theorems are about).  Proved: `C11_iff_partial` — for every tree (any depth, any width) built from string / integer / float / "
                               "boolean validators with typed predicates, equality validators, lists, uniform and n-tuples, string-keyed maps, "
                               "the five record kinds, key-not-required, unions and optionals, and every JSON value, the "
                               "generated schema accepts the value iff the validator does, under the side conditions `ok` "
